@@ -417,9 +417,16 @@ def run(ctx):
                         step.update(hidden_types=sorted(ht), hidden_fields=sorted(hf), hidden_input_fields=sorted(hi),
                                     hidden_directives=sorted(hd))
 
+                        # an allow-list over the application's own types answers False for the specified scalars and
+                        # the introspection types as well; those cannot be hidden (documented), so nothing else changes
+                        allow_list = rng.random() < 0.4
+                        allowed = set(cir.types) - ht
+                        step["predicate_style"] = "allow-list" if allow_list else "deny-list"
+                        ctx.count("visibility_predicate:" + step["predicate_style"])
+
                         class V(VisibilitySchemaTransform):
                             def is_type_visible(self, name):
-                                return name not in ht
+                                return (name in allowed) if allow_list else (name not in ht)
 
                             def is_field_visible(self, typename, fieldname):
                                 return (typename, fieldname) not in hf
